@@ -33,6 +33,10 @@ def debug_log():
                                           debug=True))
 
 
+class CommentOverlap(Exception):
+    """ruamel.yaml could not attach the comments of a document it was given."""
+
+
 def _literal(text):
     # Parsers treats the exact source "-" as "read standard input" even for
     # literal data; a (torn) file holding just "-" must not reach that branch
@@ -46,6 +50,10 @@ def strict_load(text):
     try:
         return Parsers.get_yaml_data(yaml, QuietLog(), _literal(text),
                                      literal=True)
+    except NotImplementedError as ex:
+        # ruamel.yaml 0.17.21 gives up on some arrangements of comments
+        # ("overlap in comment ..."): its limitation, reported as such
+        raise CommentOverlap(str(ex)) from ex
     except (ReaderError, UnicodeError, ValueError):
         # control characters / undecodable bytes (torn writes), or a scalar
         # ruamel's own constructor chokes on (e.g. "!!float '5'"): Parsers
